@@ -27,4 +27,12 @@ CHECKS = {
                  "the standalone extractor) must be exactly the border faces, closed, outward, with mutually inverse index maps.",
          "design_ref": "DESIGN.md section 6 C03", "note": _NOTE + " 'Positively oriented' is read as the library's own signed volume det(p0-p3,p1-p3,p2-p3)>0.",
          "technique": "runtime monitoring: reference-model differential oracle + query-order history + boundary-map invariants"},
+ "C09": {"text": "Reference-model differential monitor: every path returned by shortest_path / shortest_path_to_vertex_set / shortest_path_to_border on "
+                 "generated polylines, surfaces and volumes is checked to start/end correctly, walk along mesh edges and have exactly the minimum weight "
+                 "computed by an independent O(n^2) Dijkstra, for unit, Euclidean and custom (dict / Attribute, ties, zero weights) weights and all target forms.",
+         "design_ref": "DESIGN.md section 6 C09", "note": _NOTE, "technique": "runtime monitoring: reference-model differential oracle (independent Dijkstra)"},
+ "C10": {"text": "Reference-model monitor: vertex / dual-face / cell spanning trees, the minimal spanning tree and the three forests are run on generated "
+                 "connected and disconnected meshes with random roots, exclusion sets and avoid_boundary; reach set, edge count, admissibility of tree edges, "
+                 "parent/children consistency, traversal orders, BFS depth == reference hop distance, MST weight == reference Kruskal, one tree per component.",
+         "design_ref": "DESIGN.md section 6 C10", "note": _NOTE, "technique": "runtime monitoring: reference-model differential oracle + structural invariants of the returned trees"},
 }
